@@ -44,13 +44,21 @@ Verdict(ev) ==
                         ((ListDet(t, ev.env) /\ ListDet(t, RevEnvFor(t, ev.env)))
                             => Den(t, ev.env) = ev.rows),
          meta |-> want("meta") => \A n \in Nodes(t) : NodeOK(n, ev.env),
-         coh  |-> want("coh") => MarkerCoherent(t) /\ (KindOf(Eng(t)) = "sql" => Conform(t) = t) ]
+         coh  |-> want("coh") => /\ MarkerCoherent(t) /\ (KindOf(Eng(t)) = "sql" => Conform(t) = t)
+                                 /\ StrictCoherent(t, TRUE) ]      \* to the letter, open finding F15 excluded
+
+\* the event exhibits open finding F15 (and nothing else is wrong with its markers)
+IsKF15(ev) ==
+    LET t == FromJTree(ev.tree) IN
+    /\ \E i \in DOMAIN ev.checks : ev.checks[i] = "coh"
+    /\ WellFormed(t) /\ StrictCoherent(t, TRUE) /\ ~StrictCoherent(t, FALSE)
 
 Init == l = 1
 Next == /\ l <= Len(Trace)
         /\ LET v == Verdict(Trace[l]) IN
               IF v.wf /\ v.den /\ v.denbag /\ v.denlist /\ v.meta /\ v.coh THEN TRUE
               ELSE PrintT(<<"TV", ToJson([id |-> Trace[l].id, v |-> v])>>)
+        /\ (IsKF15(Trace[l]) => PrintT(<<"TK", ToJson([id |-> Trace[l].id, kf |-> "F15"])>>))
         /\ l' = l + 1
         /\ (l' = Len(Trace) + 1 => PrintT(<<"TVDONE", Len(Trace)>>))
 Spec == Init /\ [][Next]_l
